@@ -19,6 +19,10 @@ RULE = (
     "same path as a list, another explicit path} and kwargs from "
     "{strip_exponent, implementation, prefer_einsum, sort_contraction_indices} "
     "incl. values equal under ==/hash but of different type (1/True/1.0). "
+    "The labels of a history are one-character strings (default "
+    "canonicalisation, or canonicalize=False) or integers incl. -1,-2,... "
+    "(ncon style; hash(-1)==hash(-2)) with and without canonicalisation; "
+    "terms are passed as lists of tuples. "
     "Module caches are cleared at the start of each history. Oracle: every "
     "returned value == independent dense reference for THAT call's "
     "contraction; a returned path is valid and, if an explicit path was "
@@ -28,7 +32,8 @@ RULE = (
     "sha1(spec)."
 )
 ASSUMPTIONS = [
-    "64-bit hash collisions of genuinely different keys are outside what search can find",
+    "collisions of 64-bit string hashes of genuinely different keys are outside what search can find (integer hash collisions are generated)",
+    "with raw integer labels (canonicalize=False) trees are not contracted and not index-sorted: only promised for one-character labels",
     "numpy backend",
 ]
 
@@ -89,13 +94,18 @@ def histories(draw):
             min_size=2, max_size=12,
         )
     )
+    # label type of the whole history: one-character strings (canonicalised
+    # as by default), or integers incl. negative ones (ncon style) passed with
+    # or without canonicalisation - the library documents arbitrary hashable
+    # labels for the array_contract family
+    labmode = draw(st.sampled_from(["str", "str", "int_nocanon", "int_canon", "str_nocanon"]))
     calls = []
     for fn, vi, oi, ki, aseed in raw:
         kind, vk = variants[vi % len(variants)]
         c = {"fn": fn, "variant": kind, "vk": vk, "optimize": opts[oi % len(opts)], "aseed": aseed}
         c.update(kwsets[ki % len(kwsets)])
         calls.append(c)
-    return {"net": net, "p1": p1, "p2": p2, "calls": calls}
+    return {"net": net, "p1": p1, "p2": p2, "calls": calls, "labmode": labmode}
 
 
 def strategy(tier, sub=None):
@@ -123,6 +133,19 @@ def clear_caches():
     for f in ("_sanitize_equation", "_parse_einsum_single", "_parse_eq_to_batch_matmul", "_parse_tensordot_axes_to_matmul"):
         getattr(C, f).cache_clear()
     ctg.utils.parse_equation_ellipses.cache_clear()
+
+
+# integer labels as an ncon user would write them (negative = open legs)
+INT_POOL = [-1, -2, 1, 2, -3, 3, 0, 4, -4, 5, 6, 7, 8, 9, 10, 11, 12, 13, 14, 15, 16, 17, 18, 19, 20, 21, 22, 23, 24]
+
+
+def to_int_labels(inputs, output, sizes, base_labels):
+    m = {ix: INT_POOL[j] for j, ix in enumerate(base_labels)}
+    return (
+        [tuple(m[ix] for ix in t) for t in inputs],
+        tuple(m[ix] for ix in output),
+        {m[ix]: d for ix, d in sizes.items()},
+    )
 
 
 def make_variant(net, kind, k):
@@ -202,8 +225,21 @@ def run_case(spec, sub=None):
             )
         handed_out[id(obj)] = (canon, obj)
 
+    labmode = spec.get("labmode", "str")
+    canon_kw = {} if labmode in ("str", "int_canon") else {"canonicalize": False}
+    # output labels first: the open legs get -1, -2, ...
+    base_labels = list(dict.fromkeys(list(net["output"]) + sorted(net["sizes"])))
+    cls.append(f"labels={labmode}")
+
     for k, call in enumerate(spec["calls"]):
         inputs, output, sizes = make_variant(net, call["variant"], call["vk"])
+        if labmode.startswith("int"):
+            if call["variant"] == "relabelled":
+                # relabel within the integers: shift every label by one place
+                inputs, output, sizes = make_variant(net, "base", 0)
+                inputs, output, sizes = to_int_labels(inputs, output, sizes, base_labels[-1:] + base_labels[:-1])
+            else:
+                inputs, output, sizes = to_int_labels(inputs, output, sizes, base_labels)
         variants_seen.add((tuple(inputs), output, tuple(sorted(sizes.items()))))
         canon = canonical(inputs, output, sizes)
         arrays = ref.make_arrays(inputs, sizes, call["aseed"] + 100 * k, "f")
@@ -216,6 +252,10 @@ def run_case(spec, sub=None):
         if o.startswith("p"):
             explicit = paths[o[:2]]
             optimize = list(map(tuple, explicit)) if o.endswith("list") else explicit
+        elif o.startswith("e_") and labmode.startswith("int"):
+            # a sequence of integers is read as a linear path: no edge paths
+            optimize = "greedy"
+            o = "greedy"
         elif o.startswith("e_"):
             # an edge path: every label of this variant, in an order derived
             # from the spec (dispatch on the *type* of optimize is cached)
@@ -230,18 +270,30 @@ def run_case(spec, sub=None):
                 optimize = list(edge) if o.endswith("list") else tuple(edge)
         else:
             optimize = o
-        eq = ",".join("".join(t) for t in inputs) + "->" + "".join(output)
+        fn = call["fn"]
+        if labmode.startswith("int"):
+            # no equation strings with integer labels: the array_contract
+            # family takes the place of the einsum family
+            fn = {
+                "einsum": "array_contract", "einsum_expression": "expression_reuse",
+                "einsum_expression_constants": "expression_constants",
+            }.get(fn, fn)
+            eq = None
+        else:
+            eq = ",".join("".join(t) for t in inputs) + "->" + "".join(output)
         shapes = [a.shape for a in arrays]
         kw = {}
         if call["impl"] is not None:
             kw["implementation"] = call["impl"]
         if call["prefer_einsum"] is not False:
             kw["prefer_einsum"] = call["prefer_einsum"]
-        if call["sort"]:
+        # (sorting the indices of a tree joins its labels into strings: only
+        # promised for one-character labels)
+        do_sort = bool(call["sort"]) and labmode != "int_nocanon"
+        if do_sort:
             kw["sort_contraction_indices"] = True
         strip = call["strip"]
-        fn = call["fn"]
-        what = f"call#{k} {fn}({call['variant']}, optimize={o})"
+        what = f"call#{k} {fn}({call['variant']}, optimize={o}, labels={labmode})"
 
         def value_of(res, stripped):
             if stripped:
@@ -293,18 +345,20 @@ def run_case(spec, sub=None):
                 r = ctg.einsum(eq, *arrays, optimize=optimize, strip_exponent=strip, cache_expression=cache, **kw)
                 out["values"].append((r, exp, bool(strip)))
             elif fn == "array_contract":
-                r = ctg.array_contract(arrays, inputs, output, optimize=optimize, strip_exponent=strip, cache_expression=cache, **kw)
+                r = ctg.array_contract(arrays, inputs, output, optimize=optimize, strip_exponent=strip, cache_expression=cache, **canon_kw, **kw)
                 out["values"].append((r, exp, bool(strip)))
             elif fn == "path":
-                out["path"] = ctg.array_contract_path(inputs, output, sizes, optimize=optimize, cache=cache)
+                out["path"] = ctg.array_contract_path(inputs, output, sizes, optimize=optimize, cache=cache, **canon_kw)
                 if cache and explicit is None and edge is None and len(out["path"]) > 0:
                     check_not_shared(out["path"], canon, what)
             elif fn == "tree":
-                t = ctg.array_contract_tree(inputs, output, sizes, optimize=optimize, sort_contraction_indices=call["sort"])
+                t = ctg.array_contract_tree(inputs, output, sizes, optimize=optimize, sort_contraction_indices=do_sort, **canon_kw)
                 out["path"] = t.get_path()
-                out["values"].append((t.contract(arrays), exp, False))
+                if labmode != "int_nocanon":
+                    # (a tree over raw integer labels is not promised to contract)
+                    out["values"].append((t.contract(arrays), exp, False))
             elif fn in ("expression", "expression_reuse"):
-                e = ctg.array_contract_expression(inputs, output, sizes, optimize=optimize, strip_exponent=strip, cache=cache, **kw)
+                e = ctg.array_contract_expression(inputs, output, sizes, optimize=optimize, strip_exponent=strip, cache=cache, **canon_kw, **kw)
                 if cache and len(inputs) > 1:
                     check_not_shared(e, canon, what)
                 out["values"].append((e(*arrays), exp, bool(strip)))
@@ -318,7 +372,16 @@ def run_case(spec, sub=None):
                 consts = [i for i in range(n) if (i + call["vk"]) % 2 == 0]
                 args = [arrays[i] if i in consts else shapes[i] for i in range(n)]
                 k2 = {kk: vv for kk, vv in kw.items()}
-                e = ctg.einsum_expression(eq, *args, optimize=optimize, constants=consts, cache=cache, **k2)
+                if fn == "expression_constants":
+                    def mk(args_):
+                        return ctg.array_contract_expression(
+                            inputs, output, shapes=[a if isinstance(a, tuple) else a.shape for a in args_],
+                            optimize=optimize, constants={i: args_[i] for i in consts}, cache=cache, **canon_kw, **k2,
+                        )
+                else:
+                    def mk(args_):
+                        return ctg.einsum_expression(eq, *args_, optimize=optimize, constants=consts, cache=cache, **k2)
+                e = mk(args)
                 free = [arrays[i] for i in range(n) if i not in consts]
                 out["values"].append((e(*free), exp, False))
                 # fresh arrays for the non-constant operands only
@@ -333,7 +396,7 @@ def run_case(spec, sub=None):
                     arrays[i] += 1.0
                 try:
                     args3 = [arrays[i] if i in consts else shapes[i] for i in range(n)]
-                    e3 = ctg.einsum_expression(eq, *args3, optimize=optimize, constants=consts, cache=cache, **k2)
+                    e3 = mk(args3)
                     exp3 = ref.dense_ref(inputs, output, sizes, arrays)
                     out["values"].append((e3(*free), exp3, False))
                 finally:
